@@ -42,63 +42,95 @@ def clean(t, field=None):
 class Layout:
     """how tokens become text; every choice keeps the token sequence unchanged"""
 
-    def __init__(self, eol="\n", indent="    ", sep=" ", bom=False, trailing_newline=True, comment=None, blank=None):
+    def __init__(self, eol="\n", indent="    ", sep=" ", bom=False, trailing_newline=True, comment=None, blank=None,
+                 ff=False, join=0, brk=False, semi=False, trail=""):
         self.eol, self.indent, self.sep, self.bom, self.trailing_newline = eol, indent, sep, bom, trailing_newline
         self.comment, self.blank = comment, blank
+        self.ff = ff            # a form feed before the first token of top-level lines
+        self.join = join        # backslash-newline after every join-th token outside brackets (0 = never)
+        self.brk = brk          # a line break after every opening bracket
+        self.semi = semi        # consecutive simple statements joined with ';'
+        self.trail = trail      # trailing whitespace before each line end
 
 
 CANON = Layout()
+COMPOUND_START = {"if", "while", "for", "with", "try", "def", "class", "async", "match", "@", "elif", "else", "except", "finally", "case"}
+OPEN, CLOSE = {"(", "[", "{"}, {")", "]", "}"}
 
 
 def realize(case, layout=CANON, names=None):
     """-> (text, tree with expected ranges, token list [(text, start, end)])"""
     tree = clean(case["tree"])
-    out = []          # pieces of text
     pos = 3 if layout.bom else 0
-    text = "﻿" if layout.bom else ""
+    text = "\ufeff" if layout.bom else ""
     toks = []
     pendingB = []
-    lastE = []        # E marks wait for the previous token: resolved immediately (previous token known)
     starts, ends = {}, {}
     depth = 0
     bol = True
     line_has_tok = False
+    line_first = None
+    last_tok = None
+    nest = 0
+    count = 0
     items = case["items"]
-    for it in items:
+
+    def emit(sx):
+        nonlocal text, pos
+        text += sx
+        pos += len(sx.encode("utf-8"))
+    n = len(items)
+    for idx, it in enumerate(items):
         kind = it["i"]
         if kind == "t":
             s = it["s"]
             if names and s in names:
                 s = names[s]
             if bol:
-                lead = layout.indent * depth
-                text += lead
-                pos += len(lead.encode("utf-8"))
+                if layout.ff and depth == 0:
+                    emit("\x0c")
+                emit(layout.indent * depth)
                 bol = False
             elif line_has_tok:
-                text += layout.sep
-                pos += len(layout.sep.encode("utf-8"))
-            b = s.encode("utf-8")
+                emit(layout.sep)
+            if not line_has_tok:
+                line_first = s
             for p in pendingB:
                 starts[p] = pos
             pendingB = []
+            b = s.encode("utf-8")
             toks.append((s, pos, pos + len(b)))
-            text += s
-            pos += len(b)
+            emit(s)
             line_has_tok = True
+            last_tok = s
+            count += 1
+            if s in OPEN:
+                nest += 1
+                if layout.brk:
+                    emit(layout.eol + "      ")
+            elif s in CLOSE:
+                nest -= 1
+            elif layout.join and nest == 0 and count % layout.join == 0:
+                # a join is only possible when another token follows on this logical line
+                nxt = next((x for x in items[idx + 1:] if x["i"] in ("t", "NL")), None)
+                if nxt and nxt["i"] == "t":
+                    emit(" \\" + layout.eol + "   ")
         elif kind == "B":
             pendingB.append(tuple(it["p"]))
         elif kind == "E":
             ends[tuple(it["p"])] = toks[-1][2] if toks else pos
         elif kind == "NL":
+            nxt = next((x for x in items[idx + 1:] if x["i"] not in ("B", "E")), None)
+            if (layout.semi and nxt and nxt["i"] == "t" and last_tok != ":" and line_first not in COMPOUND_START
+                    and nxt["s"] not in COMPOUND_START):
+                emit(" ;")
+                continue
             if layout.comment and line_has_tok:
-                text += layout.comment
-                pos += len(layout.comment.encode("utf-8"))
-            text += layout.eol
-            pos += len(layout.eol.encode("utf-8"))
-            if layout.blank:
-                text += layout.blank + layout.eol
-                pos += len((layout.blank + layout.eol).encode("utf-8"))
+                emit(layout.comment)
+            emit(layout.trail)
+            emit(layout.eol)
+            if layout.blank is not None:
+                emit(layout.blank + layout.eol)
             bol = True
             line_has_tok = False
         elif kind == "IND":
@@ -110,7 +142,7 @@ def realize(case, layout=CANON, names=None):
     if not layout.trailing_newline:
         text = text.rstrip("\r\n")
     # attach ranges
-    for p, s in starts.items():
+    for p, s0 in starts.items():
         node = tree
         ok = True
         for step in p:
@@ -120,7 +152,7 @@ def realize(case, layout=CANON, names=None):
                 ok = False
                 break
         if ok and isinstance(node, dict) and p in ends:
-            node["range"] = [s, ends[p]]
+            node["range"] = [s0, ends[p]]
     return text, tree, toks
 
 
